@@ -555,12 +555,13 @@ impl Disk
         let mut sec_base = 0; // in units of pairs
         let mut p = 0; // pairs written in current tslist sector
         let mut tslist = TrackSectorList::new();
+        // find the directory slot first, so that a full directory is reported before any sector is reserved
+        let (ts,e) = self.get_next_directory_slot()?;
         let mut tslist_ts = self.get_next_free_sector(true)?;
         self.allocate_sector(tslist_ts[0],tslist_ts[1])?; // reserve this sector
         self.update_last_track(tslist_ts[0])?;
 
         // write the directory entry
-        let (ts,e) = self.get_next_directory_slot()?;
         let mut dir_buf = vec![0;256];
         self.read_sector(&mut dir_buf, ts, 0)?;
         let mut dir = DirectorySector::from_bytes(&dir_buf)?;
